@@ -401,3 +401,47 @@ def rule_inverter(prog, rep):
     for name, w in wants.items():
         rep.check(any(equal(g[0], w) for g in gl), "C10.inverter", method_site(prog, c, "__check_init__"),
                   f"inverter:rejects-not({name})", f"raises unless {name}", f"no guard enforcing {name}")
+    # the configured values are the requested ones: no converter, __init__ or __post_init__ rewrites them between the
+    # constructor call and __call__
+    import ast as _ast
+    casts = {"tol": {"float"}, "max_iter": {"int"}, "lower": {"jnp.asarray", "jax.numpy.asarray"},
+             "upper": {"jnp.asarray", "jax.numpy.asarray"}}
+    for fname, ok_conv in casts.items():
+        fi = prog.find_field(c, fname)
+        if fi is None:
+            rep.undecided("C10.inverter", f"{c.module.relpath}:{c.node.lineno}", f"inverter:{fname}:stored-as-requested",
+                          "field vanished")
+            continue
+        d = fi[1].default
+        conv = None
+        if isinstance(d, _ast.Call) and _ast.unparse(d.func).endswith("field"):
+            for kw in d.keywords:
+                if kw.arg == "converter":
+                    conv = _ast.unparse(kw.value)
+        rep.check(conv is None or conv in ok_conv, "C10.inverter", f"{fi[0].module.relpath}:{fi[1].lineno}",
+                  f"inverter:{fname}:stored-as-requested", f"converter {conv} (none or a cast)",
+                  f"field {fname} is declared with converter={conv}: the search runs with a value other than the "
+                  f"requested one (for tol: the result is no longer within the requested tolerance)")
+    sym = {f: ("sym", f.upper()) for f in casts}
+    for special in ("__init__", "__post_init__"):
+        r = prog.find_method(c, special)
+        if r is None:
+            continue
+        owner, fn = r
+        it2 = Interp(prog)
+        it2.self_fields = {}
+        if special == "__init__":
+            flds = it2.eval_init(c, [], dict(sym))
+        else:
+            it2.self_fields = dict(sym)
+            it2.eval_method(c, special, [])
+            flds = it2.self_fields
+        for fname in casts:
+            got = flds.get(fname)
+            ok = got is not None and (equal(got, sym[fname]) or (
+                fname in ("lower", "upper") and got[0] == "call" and got[1] == ("ext", "jax.numpy.asarray")
+                and sym[fname] in (list(got[2]) + [v for _, v in got[3]])))
+            rep.check(ok, "C10.inverter", method_site(prog, owner, special), f"inverter:{fname}:unchanged-by-{special}",
+                      f"{special} leaves {fname} as requested",
+                      f"{special} sets {fname} to {show(got, 200) if got else None}, not to the requested value: the search "
+                      f"runs with a different tolerance / iteration cap / interval than the caller configured")
